@@ -101,6 +101,132 @@ pub mod shim {
         assert(v / 16777216 == c0 && (v / 65536) % 256 == c1 && (v / 256) % 256 == c2 && v % 256 == c3) by(bit_vector)
             requires c0 < 256, c1 < 256, c2 < 256, c3 < 256, v == c0 << 24 | c1 << 16 | c2 << 8 | c3;
     }
+    /// rule R34: masks and shifts by constants equal the divisions / remainders they stand for (instantiated only where a
+    /// mask or shift term occurs; inserted at the start of every verified function body)
+    /*PROVED_IN:u_pnet*/ pub proof fn bit_facts()
+        ensures
+            forall|x: u8| #[trigger] (x & 0x7f) == x % 128,
+            forall|x: u8| #[trigger] (x & 0x0f) == x % 16,
+            forall|x: u8| #[trigger] (x >> 4) == x / 16,
+            forall|x: u8| #[trigger] (x & 1) == x % 2,
+            forall|x: u16| #[trigger] (x & 0xff) == x % 256,
+            forall|x: u16| #[trigger] (x >> 8) == x / 256,
+            forall|x: u32| #[trigger] (x & 0xff) == x % 256,
+            forall|x: u32| #[trigger] (x & 0xffff) == x % 65536,
+            forall|x: u32| #[trigger] (x >> 8) == x / 256,
+            forall|x: u32| #[trigger] (x >> 16) == x / 65536,
+            forall|x: u32| #[trigger] (x >> 24) == x / 16777216,
+            forall|x: u64| #[trigger] (x & 0xFFFFFFFF) == x % 0x1_0000_0000,
+            forall|x: usize| #[trigger] (x & 0xFFFFFF) == x % 0x1000000,
+            forall|x: usize| #[trigger] (x >> 24) == x / 0x1000000,
+            forall|x: u16| #[trigger] (x & 1) == x % 2,
+            forall|x: u16| #[trigger] (x & 0x07) == x % 8,
+            forall|x: u16| #[trigger] (x & 0x0f) == x % 16,
+            forall|x: u16| #[trigger] (x >> 15) == x / 32768,
+            forall|x: u16| #[trigger] (x >> 11) == x / 2048,
+            forall|x: u16| #[trigger] (x >> 10) == x / 1024,
+            forall|x: u16| #[trigger] (x >> 9) == x / 512,
+            forall|x: u16| #[trigger] (x >> 4) == x / 16,
+            forall|x: u32| #[trigger] (x & 1) == x % 2,
+            forall|x: u8| #[trigger] (x & 0x3f) == x % 64,
+            forall|x: u8| #[trigger] (x >> 7) == x / 128,
+            forall|x: u8| #[trigger] (x & 0x1) == 0 || (x & 0x1) == 0x1,
+            forall|x: u8| #[trigger] (x & 0x2) == 0 || (x & 0x2) == 0x2,
+            forall|x: u8| #[trigger] (x & 0x4) == 0 || (x & 0x4) == 0x4,
+            forall|x: u8| #[trigger] (x & 0x8) == 0 || (x & 0x8) == 0x8,
+            forall|x: u8| #[trigger] (x & 0x10) == 0 || (x & 0x10) == 0x10,
+            forall|x: u8| #[trigger] (x & 0x20) == 0 || (x & 0x20) == 0x20,
+            forall|x: u8| #[trigger] (x & 0x40) == 0 || (x & 0x40) == 0x40,
+            forall|x: u8| #[trigger] (x & 0x80) == 0 || (x & 0x80) == 0x80,
+            forall|x: u16| #[trigger] (x & 0x1) == 0 || (x & 0x1) == 0x1,
+            forall|x: u16| #[trigger] (x & 0x2) == 0 || (x & 0x2) == 0x2,
+            forall|x: u16| #[trigger] (x & 0x4) == 0 || (x & 0x4) == 0x4,
+            forall|x: u16| #[trigger] (x & 0x8) == 0 || (x & 0x8) == 0x8,
+            forall|x: u16| #[trigger] (x & 0x10) == 0 || (x & 0x10) == 0x10,
+            forall|x: u16| #[trigger] (x & 0x20) == 0 || (x & 0x20) == 0x20,
+            forall|x: u16| #[trigger] (x & 0x40) == 0 || (x & 0x40) == 0x40,
+            forall|x: u16| #[trigger] (x & 0x80) == 0 || (x & 0x80) == 0x80,
+            forall|x: u16| #[trigger] (x & 0x100) == 0 || (x & 0x100) == 0x100,
+            forall|x: u16| #[trigger] (x & 0x200) == 0 || (x & 0x200) == 0x200,
+            forall|x: u16| #[trigger] (x & 0x400) == 0 || (x & 0x400) == 0x400,
+            forall|x: u16| #[trigger] (x & 0x800) == 0 || (x & 0x800) == 0x800,
+            forall|x: u16| #[trigger] (x & 0x1000) == 0 || (x & 0x1000) == 0x1000,
+            forall|x: u16| #[trigger] (x & 0x2000) == 0 || (x & 0x2000) == 0x2000,
+            forall|x: u16| #[trigger] (x & 0x4000) == 0 || (x & 0x4000) == 0x4000,
+            forall|x: u16| #[trigger] (x & 0x8000) == 0 || (x & 0x8000) == 0x8000,
+            forall|x: u32| #[trigger] (x & 0x1) == 0 || (x & 0x1) == 0x1,
+            forall|x: u32| #[trigger] (x & 0x2) == 0 || (x & 0x2) == 0x2,
+            forall|x: u32| #[trigger] (x & 0x4) == 0 || (x & 0x4) == 0x4,
+            forall|x: u32| #[trigger] (x & 0x8) == 0 || (x & 0x8) == 0x8,
+            forall|x: u32| #[trigger] (x & 0x10) == 0 || (x & 0x10) == 0x10,
+            forall|x: u32| #[trigger] (x & 0x20) == 0 || (x & 0x20) == 0x20,
+            forall|x: u32| #[trigger] (x & 0x40) == 0 || (x & 0x40) == 0x40,
+            forall|x: u32| #[trigger] (x & 0x80) == 0 || (x & 0x80) == 0x80,
+            forall|x: u8| (#[trigger] (x & 0x80) == 0x80) == (x >= 128),
+            (1usize << 24) == 0x1000000usize, (1u32 << 16) == 0x10000u32, (1u32 << 8) == 0x100u32,
+    {
+        assert(forall|x: u8| #[trigger] (x & 0x1) == 0 || (x & 0x1) == 0x1) by(bit_vector);
+        assert(forall|x: u8| #[trigger] (x & 0x2) == 0 || (x & 0x2) == 0x2) by(bit_vector);
+        assert(forall|x: u8| #[trigger] (x & 0x4) == 0 || (x & 0x4) == 0x4) by(bit_vector);
+        assert(forall|x: u8| #[trigger] (x & 0x8) == 0 || (x & 0x8) == 0x8) by(bit_vector);
+        assert(forall|x: u8| #[trigger] (x & 0x10) == 0 || (x & 0x10) == 0x10) by(bit_vector);
+        assert(forall|x: u8| #[trigger] (x & 0x20) == 0 || (x & 0x20) == 0x20) by(bit_vector);
+        assert(forall|x: u8| #[trigger] (x & 0x40) == 0 || (x & 0x40) == 0x40) by(bit_vector);
+        assert(forall|x: u8| #[trigger] (x & 0x80) == 0 || (x & 0x80) == 0x80) by(bit_vector);
+        assert(forall|x: u16| #[trigger] (x & 0x1) == 0 || (x & 0x1) == 0x1) by(bit_vector);
+        assert(forall|x: u16| #[trigger] (x & 0x2) == 0 || (x & 0x2) == 0x2) by(bit_vector);
+        assert(forall|x: u16| #[trigger] (x & 0x4) == 0 || (x & 0x4) == 0x4) by(bit_vector);
+        assert(forall|x: u16| #[trigger] (x & 0x8) == 0 || (x & 0x8) == 0x8) by(bit_vector);
+        assert(forall|x: u16| #[trigger] (x & 0x10) == 0 || (x & 0x10) == 0x10) by(bit_vector);
+        assert(forall|x: u16| #[trigger] (x & 0x20) == 0 || (x & 0x20) == 0x20) by(bit_vector);
+        assert(forall|x: u16| #[trigger] (x & 0x40) == 0 || (x & 0x40) == 0x40) by(bit_vector);
+        assert(forall|x: u16| #[trigger] (x & 0x80) == 0 || (x & 0x80) == 0x80) by(bit_vector);
+        assert(forall|x: u16| #[trigger] (x & 0x100) == 0 || (x & 0x100) == 0x100) by(bit_vector);
+        assert(forall|x: u16| #[trigger] (x & 0x200) == 0 || (x & 0x200) == 0x200) by(bit_vector);
+        assert(forall|x: u16| #[trigger] (x & 0x400) == 0 || (x & 0x400) == 0x400) by(bit_vector);
+        assert(forall|x: u16| #[trigger] (x & 0x800) == 0 || (x & 0x800) == 0x800) by(bit_vector);
+        assert(forall|x: u16| #[trigger] (x & 0x1000) == 0 || (x & 0x1000) == 0x1000) by(bit_vector);
+        assert(forall|x: u16| #[trigger] (x & 0x2000) == 0 || (x & 0x2000) == 0x2000) by(bit_vector);
+        assert(forall|x: u16| #[trigger] (x & 0x4000) == 0 || (x & 0x4000) == 0x4000) by(bit_vector);
+        assert(forall|x: u16| #[trigger] (x & 0x8000) == 0 || (x & 0x8000) == 0x8000) by(bit_vector);
+        assert(forall|x: u32| #[trigger] (x & 0x1) == 0 || (x & 0x1) == 0x1) by(bit_vector);
+        assert(forall|x: u32| #[trigger] (x & 0x2) == 0 || (x & 0x2) == 0x2) by(bit_vector);
+        assert(forall|x: u32| #[trigger] (x & 0x4) == 0 || (x & 0x4) == 0x4) by(bit_vector);
+        assert(forall|x: u32| #[trigger] (x & 0x8) == 0 || (x & 0x8) == 0x8) by(bit_vector);
+        assert(forall|x: u32| #[trigger] (x & 0x10) == 0 || (x & 0x10) == 0x10) by(bit_vector);
+        assert(forall|x: u32| #[trigger] (x & 0x20) == 0 || (x & 0x20) == 0x20) by(bit_vector);
+        assert(forall|x: u32| #[trigger] (x & 0x40) == 0 || (x & 0x40) == 0x40) by(bit_vector);
+        assert(forall|x: u32| #[trigger] (x & 0x80) == 0 || (x & 0x80) == 0x80) by(bit_vector);
+        assert(forall|x: u8| (#[trigger] (x & 0x80) == 0x80) == (x >= 128)) by(bit_vector);
+        assert(forall|x: u16| #[trigger] (x & 1) == x % 2) by(bit_vector);
+        assert(forall|x: u16| #[trigger] (x & 0x07) == x % 8) by(bit_vector);
+        assert(forall|x: u16| #[trigger] (x & 0x0f) == x % 16) by(bit_vector);
+        assert(forall|x: u16| #[trigger] (x >> 15) == x / 32768) by(bit_vector);
+        assert(forall|x: u16| #[trigger] (x >> 11) == x / 2048) by(bit_vector);
+        assert(forall|x: u16| #[trigger] (x >> 10) == x / 1024) by(bit_vector);
+        assert(forall|x: u16| #[trigger] (x >> 9) == x / 512) by(bit_vector);
+        assert(forall|x: u16| #[trigger] (x >> 4) == x / 16) by(bit_vector);
+        assert(forall|x: u32| #[trigger] (x & 1) == x % 2) by(bit_vector);
+        assert(forall|x: u8| #[trigger] (x & 0x3f) == x % 64) by(bit_vector);
+        assert(forall|x: u8| #[trigger] (x >> 7) == x / 128) by(bit_vector);
+        assert(forall|x: u8| #[trigger] (x & 0x7f) == x % 128) by(bit_vector);
+        assert(forall|x: u8| #[trigger] (x & 0x0f) == x % 16) by(bit_vector);
+        assert(forall|x: u8| #[trigger] (x >> 4) == x / 16) by(bit_vector);
+        assert(forall|x: u8| #[trigger] (x & 1) == x % 2) by(bit_vector);
+        assert(forall|x: u16| #[trigger] (x & 0xff) == x % 256) by(bit_vector);
+        assert(forall|x: u16| #[trigger] (x >> 8) == x / 256) by(bit_vector);
+        assert(forall|x: u32| #[trigger] (x & 0xff) == x % 256) by(bit_vector);
+        assert(forall|x: u32| #[trigger] (x & 0xffff) == x % 65536) by(bit_vector);
+        assert(forall|x: u32| #[trigger] (x >> 8) == x / 256) by(bit_vector);
+        assert(forall|x: u32| #[trigger] (x >> 16) == x / 65536) by(bit_vector);
+        assert(forall|x: u32| #[trigger] (x >> 24) == x / 16777216) by(bit_vector);
+        assert(forall|x: u64| #[trigger] (x & 0xFFFFFFFF) == x % 0x1_0000_0000) by(bit_vector);
+        assert(forall|x: usize| #[trigger] (x & 0xFFFFFF) == x % 0x1000000) by(bit_vector);
+        assert(forall|x: usize| #[trigger] (x >> 24) == x / 0x1000000) by(bit_vector);
+        assert((1usize << 24) == 0x1000000usize) by(bit_vector);
+        assert((1u32 << 16) == 0x10000u32) by(bit_vector);
+        assert((1u32 << 8) == 0x100u32) by(bit_vector);
+    }
     /*PROVED_IN:u_pnet*/ pub proof fn lemma_be16_digits(b0: u8, b1: u8, v: u16)
         requires v as int == b0 as int * 256 + b1 as int
         ensures (v / 256) as u8 == b0, (v % 256) as u8 == b1
